@@ -24,6 +24,7 @@
         } )* } }
         prim!(u8, u16, u32, u64, u128, usize, i8, i16, i32, i64, i128, isize);
         impl Shim for bool { const SIZE: usize = 1; fn from_bytes(b: &[u8]) -> Self { b[0] & 1 == 1 } }
+        impl Shim for char { const SIZE: usize = 4; fn from_bytes(b: &[u8]) -> Self { char::from_u32(u32::from_le_bytes([b[0], b[1], b[2], b[3]])).expect("verif_replay: not a char") } }
         pub trait Any: Sized { fn any() -> Self; }
         impl<T: Shim> Any for T { fn any() -> Self { T::from_bytes(&next(T::SIZE)) } }
         impl<T: Shim, const N: usize> Any for [T; N] {
